@@ -105,6 +105,12 @@ SHAPES = [
     ("ExistsCriterion.container", "T", lambda tb: ["exists", qs([tb], [["field", "k", None, None]])]),
     ("ValueWrapper.value", "t", lambda x: ["vwterm", x]),
     ("AtTimezone.field", "f", lambda x: ["attz", x, "UTC"]),
+    ("Values.field", "f", lambda x: ["values", x]),
+    ("BitwiseAndCriterion.value", "t", lambda x: ["bitand_t", N(), x]),
+    ("HasAny._left_array", "f", lambda x: ["ch_hasany", x, N()]),
+    ("HasAny._right_array", "f", lambda x: ["ch_hasany", N(), x]),
+    ("ToFixedString._field", "f", lambda x: ["ch_tofixed", x, 3]),
+    ("Length._array", "f", lambda x: ["ch_length", x]),
     ("_SetOperation.base_query", "T", lambda tb: ["union", qs([tb], [["field", "k", None, None]]), qs([list(C_TBL)], [["field", "k", None, None]])]),
     ("_SetOperation._set_operation", "T", lambda tb: ["union", qs([list(C_TBL)], [["field", "k", None, None]]), qs([tb], [["field", "k", None, None]])]),
 ]
@@ -142,7 +148,7 @@ def systematic(rng, tier):
         A = list(rng.choice(A_POOL))
         B = fresh_B(rng, A, [C_TBL])
         inner = m2(list(A)) if n2 == "T" else (m2(leaf(A)) if n2 == "f" else m2(as_kind(n2, leaf(A))))
-        if inner[0] == "attz" and n1 != "t":
+        if inner[0] in ("attz", "values", "ch_hasany", "ch_tofixed", "ch_length") and n1 != "t":
             continue
         t = m1(as_kind(n1, inner))
         out.append({"kind": "term", "A": A, "B": B, "t": t, "fam": "pair:%s>%s" % (l1, l2)})
@@ -315,12 +321,20 @@ def rand_stmt(rng, A, depth, allow_extras=True):
             st["limit_by"] = [rng.choice([1, 3]), [g.num(max(depth - 1, 0)) for _ in range(rng.choice([1, 2]))]]
         if rng.random() < 0.06:
             st["with"] = [["w", rand_q(g, rng, A, 1)]]
+        if st["dialect"] == "generic" and rng.random() < 0.15 and avail:
+            st["dialect"] = "postgresql"
+            st["extras"] = {"distinct_on": [g.num(1) for _ in range(rng.choice([1, 2]))]}
+        elif st["dialect"] == "clickhouse" and rng.random() < 0.3:
+            st["extras"] = {"distinct_on": [g.num(1)]}
     elif r < 0.82:
         st["mode"] = "insert"
         st["into"] = list(rng.choice([A, A, C_TBL]))
         n = rng.choice([1, 2, 3])
         st["columns"] = [["field", "c%d" % i, rng.choice([list(A), None, list(st["into"])]), None] for i in range(n)]
         st["values"] = [[rng.choice([one(), g.num(1), ["vals", "v", None]]) for _ in range(n)] for _ in range(rng.choice([1, 2]))]
+        if rng.random() < 0.3:
+            st["dialect"] = "mysql"
+            st["extras"] = {"on_duplicate": [[["field", "c0", rng.choice([list(A), None]), None], rng.choice([one(), g.num(1)])]]}
     elif r < 0.88:
         st["mode"] = "insert_select"
         st["into"] = list(rng.choice([A, C_TBL]))
@@ -338,6 +352,12 @@ def rand_stmt(rng, A, depth, allow_extras=True):
             st["joins"] = [["on", "", ["table", item], ["basic", "eq", ["field", "k", item, None], ["field", "k", list(st["update"]), None], None]]]
         if rng.random() < 0.6:
             st["where"] = gb.boolean(1)
+        if rng.random() < 0.3:
+            st["dialect"] = "postgresql"
+            st["extras"] = {"returning": [["field", "r%d" % i, list(st["update"]), None] for i in range(rng.choice([1, 2]))]}
+    if st["dialect"] not in ("generic", "clickhouse"):
+        st.pop("prewhere", None)
+        st.pop("limit_by", None)
     return st
 
 
@@ -447,7 +467,7 @@ def stmt_slot_cases(rng):
 
 
 def extras_cases(rng):
-    """dialect builders' own slots (python-only: oracle family)"""
+    """dialect builders' own slots, each with A in exactly that slot"""
     out = []
     A = list(A_POOL[2])          # aliased, so that its columns are qualified even in single-table statements
     fa = ["field", "x", list(A), None]
@@ -457,6 +477,10 @@ def extras_cases(rng):
         {"dialect": "postgresql", "mode": "select", "from": [["table", A]], "joins": dj, "selects": [["field", "y", list(D_TBL), None]], "extras": {"distinct_on": [fa]}},
         {"dialect": "mysql", "mode": "insert", "into": A, "columns": [["field", "c0", None, None]], "values": [[one()]], "extras": {"on_duplicate": [[["field", "c0", None, None], ["func", "VALUES", [fa], None]]]}},
         {"dialect": "clickhouse", "mode": "select", "from": [["table", A]], "joins": dj, "selects": [["field", "y", list(D_TBL), None]], "extras": {"distinct_on": [fa]}},
+        {"dialect": "postgresql", "mode": "delete", "from": [["table", list(C_TBL)]], "where": crit(fa), "extras": {"using": [A]}},
+        {"dialect": "postgresql", "mode": "insert", "into": A, "columns": [["field", "c0", None, None]], "values": [[one()]],
+         "extras": {"on_conflict": {"fields": [["field", "c0", A, None]], "updates": [[["field", "c0", None, None], ["arith", "add", fa, one(), None]]],
+                                    "where": crit(["field", "w", A, None]), "update_where": crit(["field", "u", A, None])}}},
     ]
     for st in specs:
         out.append({"kind": "stmt", "A": A, "B": ["b", [], "bb"], "s": st, "fam": "extras"})
